@@ -127,6 +127,15 @@ Proof.
     cbn [All st_stmts sstmt svar mexpr mattr fexpr is_capture ay_x ay_va ay_plus ay_n]; unfold c8_okfn; ay_slv|]). apply Forall_nil.
 Qed.
 
+Lemma ay2_file_ok_any : file_ok_any2 c8_okfn (fun _ => false) ay2_file (f_stanzas ay2_file) ay_ms.
+Proof.
+  cbn [file_ok_any2 ay2_file f_stanzas ay_ms].
+  split; [|split; [|exact I]]; repeat (apply Forall_cons; [split|]); try apply Forall_nil.
+  all: match goal with
+       | |- match_ok2 _ _ _ _ _ => unfold match_ok2, c8_okfn; cbn; repeat split; try reflexivity; try discriminate; try (intros; discriminate); constructor
+       | |- _ => (split; [|apply Forall_nil]); cbn [All st_stmts sstmt svar mexpr mattr fexpr is_capture ay_x ay_va ay_plus ay_n]; unfold c8_okfn; ay_slv
+       end.
+Qed.
 Lemma ay2_strict : exists s p, run_strict k7_tree ay2_file config0 [[]] None ([] : list regex) rx_captures c8_call default_fuel ay_ms [] = Ok (s, p) /\ s_graph s = ay2_gs.
 Proof. eexists. eexists. split; [vm_compute; reflexivity|reflexivity]. Qed.
 Lemma ay2_strict_graph : graph_of (run_strict k7_tree ay2_file config0 [[]] None ([] : list regex) rx_captures c8_call default_fuel ay_ms []) = Ok ay2_gs.
